@@ -28,6 +28,10 @@ def showFV : FV → String
   | .bl l => "l" ++ ";".intercalate (l.map toHexP)
   | .wl l => "w" ++ ";".intercalate (l.map fun p => toString p.1 ++ ":" ++ toHexP p.2)
   | .nl l => "m" ++ ";".intercalate (l.map showName)
+  | .apl items => "a" ++ ";".intercalate (items.map fun it =>
+      toString it.1 ++ ":" ++ (if it.2.1 then "1" else "0") ++ ":" ++ toHexP it.2.2.1 ++ ":" ++ toString it.2.2.2)
+  | .wks addr proto bm => "k" ++ toHexP addr ++ ":" ++ toString proto ++ ":" ++ toHexP bm
+  | .gw kind addr nm key => "g" ++ toString kind ++ "|" ++ showCps addr ++ "|" ++ showName nm ++ "|" ++ toHexP key
 
 def parseFV (s : String) : Option FV :=
   match s.toList with
@@ -36,6 +40,26 @@ def parseFV (s : String) : Option FV :=
   | 'b' :: r => (ofHex (String.ofList r)).map .b
   | 'l' :: r =>
     if r.isEmpty then some (.bl []) else ((splitOnChar (String.ofList r) ';').mapM ofHex).map .bl
+  | 'a' :: r =>
+    if r.isEmpty then some (.apl [])
+    else ((splitOnChar (String.ofList r) ';').mapM fun item =>
+      match splitOnChar item ':' with
+      | [f, n, a, p] => do
+        let f ← f.toNat?; let n ← parseBool n; let a ← ofHex a; let p ← p.toNat?
+        some (f, n, a, p)
+      | _ => none).map .apl
+  | 'k' :: r =>
+    match splitOnChar (String.ofList r) ':' with
+    | [a, p, bm] => do
+      let a ← ofHex a; let p ← p.toNat?; let bm ← ofHex bm
+      some (.wks a p bm)
+    | _ => none
+  | 'g' :: r =>
+    match splitOnChar (String.ofList r) '|' with
+    | [k, a, n, key] => do
+      let k ← k.toNat?; let a ← parseCps a; let n ← parseName n; let key ← ofHex key
+      some (.gw k a n key)
+    | _ => none
   | 'm' :: r =>
     if r.isEmpty then some (.nl []) else ((splitOnChar (String.ofList r) ';').mapM parseName).map .nl
   | 'w' :: r =>
